@@ -305,8 +305,10 @@ def semLoopOp (ped : Bool) (op : Nat) (vs : List Int) (g : G) : Option OpR :=
   else if op = 0x15 then some (opSzp ped 2 vs g)
   else if op = 0x16 then some (opSzp ped 3 vs g)
   else if op = 0x80 then                                                                -- FLIPPT (glyph zone)
-    -- in backward compatibility mode after both IUPs the points are popped and ignored
-    some (counted ped vs g fun p => if g.bcDone then .ok () else checkPoint g 1 p)
+    -- in backward compatibility mode after both IUPs the instruction bails out before popping anything (the point
+    -- arguments stay on the stack, /repo commit 2e3eaf9); the loop counter is reset all the same
+    if g.bcDone then some (.ok (vs, { g with loop := 1 }))
+    else some (counted ped vs g fun p => checkPoint g 1 p)
   else if op = 0x81 ∨ op = 0x82 then some (opFlipRange ped vs g)
   else if op = 0x32 ∨ op = 0x33 then some (opShp ped op vs g)
   else if op = 0x34 ∨ op = 0x35 then some (opShc ped op vs g)
@@ -346,8 +348,10 @@ def semLoops (ped : Bool) (op : Nat) (bytes : List Nat) (x : List Int × G) : Ex
     to 1 after every use) and the glyph zone's contour end points are `u16` -/
 def Wf (g : G) : Prop := g.loop ≤ 65535 ∧ ∀ c ∈ g.glyphContours, c < 65536
 
-/-- iteration budget of ONE dispatched data opcode in state `g` with value stack `vs` -/
-def work (g : G) (vs : List Int) : Nat := 65536 + g.glyphPts + g.twiPts + vs.length
+/-- iteration budget of ONE dispatched data opcode in state `g` with value stack `vs`: the clamped loop counter, the
+    points of both zones (IUP scans and rewrites every glyph point at most four times), the stack depth (MINDEX,
+    DELTA) and the stack capacity (values pushed) -/
+def work (g : G) (vs : List Int) : Nat := 65536 + 4 * g.glyphPts + g.twiPts + vs.length + g.cap
 
 /-- what one data opcode may do to the data state: keep it well formed, leave the zone sizes alone, and add at most
     `work g vs` loop iterations -/
